@@ -134,3 +134,43 @@ Check eq_refl : f14_t0 = mkTape 1 [(2, 6); (3, 1)] [(1, 5)].
 Check eq_refl : f14_t3 = mkTape 1 [(2, 9); (3, 1)] [(1, 2)].
 Check eq_refl : f14_t4 = mkTape 1 [(2, 10); (3, 1)] [(1, 1)].
 Check eq_refl : f14_rule = [((false, 0), Plus 1%Z); ((true, 0), Plus (-1)%Z)].
+
+(** F16 refutation witnesses *)
+From BB Require Import F16Witness.
+Check C03_application_refuted_F16 :
+  exists comp lim r apps a,
+    run_prover_trace comp lim = Ok (r, apps) /\ In a apps /\
+    app_cycle a = 66 /\
+    app_state a = 5 /\
+    app_before a = mkTape 1 [(2, 1)] [(1, 4)] /\
+    app_rule a = [((true, 0), Plus (-2)%Z)] /\
+    app_times a = 1 /\
+    app_after a = mkTape 1 [(2, 1)] [(1, 2)] /\
+    apply_rule (app_before a) (app_rule a) = Ok (Some (app_times a), app_after a) /\
+    ~ (exists n z, tm_steps (to_prog comp) n (app_state a, unroll_tape (app_before a)) = Some (app_state a, z) /\
+                   tape_eq z (unroll_tape (app_after a))).
+Check C03_application_not_real_F16 : forall n z,
+  tm_steps (to_prog f16_prog) n (5, unroll_tape (mkTape 1 [(2, 1)] [(1, 4)])) = Some (5, z) ->
+  ~ tape_eq z (unroll_tape (mkTape 1 [(2, 1)] [(1, 2)])).
+Check C03_real_tape_has_zeros_F16 :
+  (exists k z, (1 <= k)%nat /\
+     tm_steps (to_prog f16_prog) k (5, unroll_tape (mkTape 1 [(2, 1)] [(1, 4)])) = Some (5, z) /\
+     tape_eq z (unroll_tape (mkTape 1 [(0, 2); (2, 1)] [(1, 2)]))) /\
+  tm_steps (to_prog f16_prog) 2 (5, unroll_tape (mkTape 1 [(2, 1)] [(1, 4)]))
+    = Some (5, unroll_tape (mkTape 1 [(0, 2); (2, 1)] [(1, 2)])) /\
+  (forall n z, tm_steps (to_prog f16_prog) n (5, unroll_tape (mkTape 1 [(2, 1)] [(1, 4)])) = Some (5, z) ->
+     ~ tape_eq z (unroll_tape (mkTape 1 [(2, 1)] [(1, 2)]))) /\
+  halts_at (to_prog f16_prog) (5, unroll_tape (mkTape 1 [(2, 1)] [(1, 4)])) 11 (20, 2) /\
+  replay3 f16_prog 5 (mkTape 1 [(2, 1)] [(1, 4)]) 5 (mkTape 1 [(2, 1)] [(1, 2)]) 100 = RpStopped 11 /\
+  replay3 f16_prog 5 (mkTape 1 [(2, 1)] [(1, 4)]) 5 (mkTape 1 [(0, 2); (2, 1)] [(1, 2)]) 100 = RpReached 2.
+Check C03_first_application_real_F16 :
+  exists k z, (1 <= k)%nat /\
+    tm_steps (to_prog f16_prog) k (5, unroll_tape (mkTape 1 [] [(1, 11)])) = Some (5, z) /\
+    tape_eq z (unroll_tape (mkTape 1 [] [(1, 1)])).
+(* the literals of the witness are pinned too *)
+Check eq_refl : f16_t0 = mkTape 1 [(2, 1)] [(1, 4)].
+Check eq_refl : f16_t1 = mkTape 1 [(2, 1)] [(1, 2)].
+Check eq_refl : f16_tz = mkTape 1 [(0, 2); (2, 1)] [(1, 2)].
+Check eq_refl : f16_rule = [((true, 0), Plus (-2)%Z)].
+Check eq_refl : unroll_tape f16_t1 = {| zl := [2]; zc := 1; zr := [1; 1] |}.
+Check eq_refl : unroll_tape f16_tz = {| zl := [0; 0; 2]; zc := 1; zr := [1; 1] |}.
